@@ -88,6 +88,31 @@ Theorem C13_literal_splits_the_answer_sets : forall (A : Type) (G : list (form A
   (equilibrium A T G <-> equilibrium A T (Not A (Var A x) :: G) \/ equilibrium A T (Not A (Not A (Var A x)) :: G)) /\
   ~ (equilibrium A T (Not A (Var A x) :: G) /\ equilibrium A T (Not A (Not A (Var A x)) :: G)).
 Proof. exact literal_splits. Qed.
+(* ---- end to end for the translation model ----
+   In every state s the model of Theory.translate reaches (invariant Inv / Gw / Wf, kept by every call: C03_full_*; the model is compared with the code
+   event by event on every run), the program `translated s P` is: any program P over the user atoms (VU a k, no numbered atom VX n occurs in P), every
+   auxiliary atom allocated so far as a choice atom, one constraint per emitted clause, the false literal, the value of every pending placeholder.
+   Its answer sets are, up to the auxiliary atoms, exactly those of P: *)
+Require Import DecP TranslationConservative.
+Theorem C13_translation_invents_no_answer_set : forall (A : Type) (D : forall a b : A, {a = b} + {a <> b}) (s : F.st A) (P : theory (F.var A)),
+  (forall f, P f -> DefElim.clean (F.var A) (isvx A) f) ->
+  forall T : interp (F.var A), equilibriumP (F.var A) T (translated A D s P) -> equilibriumP (F.var A) (user (F.var A) (isaux A s) T) P.
+Proof. exact translation_invents_no_answer_set. Qed.
+Theorem C13_translation_loses_no_answer_set : forall (A : Type) (D : forall a b : A, {a = b} + {a <> b}) (h : nat) (s : F.st A),
+  F.Inv A D h nil s -> F.Gw A D s -> F.Wf A D s ->
+  forall P : theory (F.var A), (forall f, P f -> DefElim.clean (F.var A) (isvx A) f) ->
+  forall U : interp (F.var A), equilibriumP (F.var A) U P ->
+  exists T, DefElim.agree_clean (F.var A) (isaux A s) T U /\ equilibriumP (F.var A) T (translated A D s P).
+Proof. exact translation_loses_no_answer_set. Qed.
+Theorem C13_translation_duplicates_no_answer_set : forall (A : Type) (D : forall a b : A, {a = b} + {a <> b}) (h : nat) (s : F.st A),
+  F.Inv A D h nil s -> F.Gw A D s -> F.Wf A D s ->
+  forall (P : theory (F.var A)) (T T' : interp (F.var A)),
+  equilibriumP (F.var A) T (translated A D s P) -> equilibriumP (F.var A) T' (translated A D s P) ->
+  DefElim.agree_clean (F.var A) (isaux A s) T T' -> forall x, T x = T' x.
+Proof. exact translation_duplicates_no_answer_set. Qed.
+Print Assumptions C13_translation_invents_no_answer_set.
+Print Assumptions C13_translation_loses_no_answer_set.
+Print Assumptions C13_translation_duplicates_no_answer_set.
 Print Assumptions C13_observers_invent_no_answer_set.
 Print Assumptions C13_observers_lose_no_answer_set.
 Print Assumptions C13_observers_duplicate_no_answer_set.
